@@ -57,7 +57,23 @@ func main() {
 		g := sim.NewGen(*seed, *profile, r)
 		err := g.Setup()
 		for i := 0; err == nil && i < *blocks && r.Sim.Halted == ""; i++ {
-			err = g.Block()
+			crashed := false
+			func() {
+				// a panic of the real code inside one of the generator's own reads of the state (a listing getter
+				// meeting a dangling index entry ...) is recorded as the operation `inspect`, which repeats those
+				// reads under recover; the history ends there
+				defer func() {
+					if x := recover(); x != nil {
+						crashed = true
+						fmt.Fprintln(os.Stderr, "hubsim: generator read panicked:", x)
+					}
+				}()
+				err = g.Block()
+			}()
+			if crashed {
+				err = g.Inspect()
+				break
+			}
 		}
 		r.Out.Flush()
 		if *opsPath != "" {
